@@ -22,8 +22,26 @@ def make_splitter(ex, st, tokens=None, sfx=''):
     f = {'__class__': StatementSplitter,
          '_in_declare': SBool(z3.Bool('s_in_declare' + sfx)), '_in_case': SInt(z3.Int('s_in_case' + sfx)),
          '_in_loop_header': SBool(z3.Bool('s_in_loop_header' + sfx)),
+         '_in_ddl': SBool(z3.Bool('s_in_ddl' + sfx)),
          '_is_create': SBool(z3.Bool('s_is_create' + sfx)), '_begin_depth': SInt(z3.Int('s_begin_depth' + sfx)),
          'consume_ws': SBool(z3.Bool('s_consume_ws' + sfx)), 'level': SInt(z3.Int('s_level' + sfx))}
+    # any further attribute that the current _reset() initialises (a field added by a later change of the code) exists on
+    # the object too: an unknown value of the initialiser's type, never an AttributeError of the model
+    import ast as _ast
+    from pyvc.core import source as _source
+    rn = _source().get('sqlparse.engine.statement_splitter.StatementSplitter._reset')
+    for n in (_ast.walk(rn) if rn is not None else ()):
+        if isinstance(n, _ast.Assign):
+            for t in n.targets:
+                if isinstance(t, _ast.Attribute) and isinstance(t.value, _ast.Name) and t.value.id == 'self' \
+                        and t.attr not in f and t.attr != 'tokens':
+                    c = n.value.value if isinstance(n.value, _ast.Constant) else Ellipsis
+                    if isinstance(c, bool):
+                        f[t.attr] = SBool(z3.Bool('s_' + t.attr + sfx))
+                    elif isinstance(c, int):
+                        f[t.attr] = SInt(z3.Int('s_' + t.attr + sfx))
+                    else:
+                        f[t.attr] = Opaque('splitter-field:' + t.attr)
     f['tokens'] = tokens if tokens is not None else ex.new_list(st, [('seg', 'TOK0' + sfx, z3.IntVal(0), z3.Int('s_ntok' + sfx))])
     st.assume(z3.Int('s_ntok' + sfx) >= 0)
     st.assume(z3.Int('s_in_case' + sfx) >= 0)
@@ -71,7 +89,7 @@ class csl_opaque:
                'self._in_declare == old(self._in_declare)', 'self._in_case == old(self._in_case)',
                'self._is_create == old(self._is_create)', 'self._begin_depth == old(self._begin_depth)',
                'self.level == old(self.level)', 'self.consume_ws == old(self.consume_ws)',
-               'self._in_loop_header == old(self._in_loop_header)']
+               'self._in_loop_header == old(self._in_loop_header)', 'self._in_ddl == old(self._in_ddl)']
     raises = []
     serves = ['C05', 'C17', 'C11']
 
@@ -144,7 +162,8 @@ class csl_spelling:
     ensures = ['result == -1 or result == 0 or result == 1', 'result == R2',
                'self._in_declare == SELF2._in_declare', 'self._in_case == SELF2._in_case',
                'self._is_create == SELF2._is_create', 'self._begin_depth == SELF2._begin_depth',
-               'self._in_loop_header == SELF2._in_loop_header', 'self.level == SELF2.level',
+               'self._in_loop_header == SELF2._in_loop_header', 'self._in_ddl == SELF2._in_ddl',
+               'self.level == SELF2.level',
                'self.consume_ws == SELF2.consume_ws']
     raises = []
     serves = ['C11']
